@@ -82,7 +82,23 @@ func init() {
 		if !slo.IsInt() || !shi.IsInt() {
 			panic("nd.DecRange: bounds with more than 18 decimals")
 		}
-		return DecV{fr.declRange(a[0].(string), smt.SInt, slo, shi)}
+		v := fr.declRange(a[0].(string), smt.SInt, slo, shi)
+		// automatic regime for concrete-witness search: a "simple" value of the range (0.5 for
+		// fractions, else 1, else the nearest bound); fixing the rate-like inputs makes the exact
+		// query linear in the integer amounts
+		half, one := big.NewRat(1, 2), big.NewRat(1, 1)
+		pick := lo
+		switch {
+		case lo.Cmp(half) <= 0 && half.Cmp(hi) <= 0 && hi.Cmp(one) <= 0:
+			pick = half
+		case lo.Cmp(one) <= 0 && one.Cmp(hi) <= 0:
+			pick = one
+		case hi.Cmp(one) < 0:
+			pick = hi
+		}
+		sp := new(big.Rat).Mul(pick, p)
+		fr.i.eng.AutoHint(a[0].(string), fr.ctx().Eq(v, fr.ctx().Int(sp.Num())))
+		return DecV{v}
 	})
 	reg(N+"NilDec", func(fr *frame, a []value) value { return DecV{} })
 	reg(N+"NilInt", func(fr *frame, a []value) value { return IntV{} })
